@@ -22,6 +22,8 @@ var c01Specs = []famSpec{
 	{Family: "big-n-mid", Pool: 1500, PoolQ: 30},
 	{Family: "rand-wide", FreshQ: 6000, FreshT: 300000},
 	{Family: "rectilinear", FreshQ: 3000, FreshT: 100000},
+	{Family: "rect-soup", Pool: 60000, PoolQ: 3000},
+	{Family: "rect-cavity", Pool: 60000, PoolQ: 3000},
 	{Family: "nested-small", Pool: 40000, PoolQ: 2000},
 	{Family: "nested", FreshQ: 2000, FreshT: 60000},
 	{Family: "degenerate-wide", FreshQ: 2000, FreshT: 60000},
